@@ -66,21 +66,27 @@ class _randobj:
                 ro_i.srcinfo_inst = SourceInfo(frame.filename, frame.lineno)
     
                 # Initialize the field_info member before going deeper            
-                if ro_i.ctor_level == 0:
+                is_top = (ro_i.ctor_level == 0)
+                if is_top:
                     self.tname = T.__qualname__
                     self._int_field_info = field_info()
                     
                     # Decide whether to record sourceinfo for this class
                     push_srcinfo_mode(srcinfo)
                     
-                # Call the user's constructor
-                ro_i.ctor_level += 1
-                super().__init__(*args, **kwargs)
-                ro_i.ctor_level -= 1
+                try:
+                    # Call the user's constructor
+                    ro_i.ctor_level += 1
+                    super().__init__(*args, **kwargs)
+                    ro_i.ctor_level -= 1
                 
-                if ro_i.ctor_level == 0:
-                    self.build_field_model(None)
-                    pop_srcinfo_mode()
+                    if ro_i.ctor_level == 0:
+                        self.build_field_model(None)
+                finally:
+                    # Leave the shared source-info stack as it was found, also
+                    # when the user's constructor or a constraint body raises
+                    if is_top:
+                        pop_srcinfo_mode()
             
         # Add the interposer class
         ret = type(T.__name__, (randobj_interposer,), dict())
@@ -208,6 +214,10 @@ class _randobj:
                                         fo.c(self)
                                     except Exception as e:
                                         print("Exception while processing constraint: " + str(e))
+                                        # Leave the shared constraint-scope and expression
+                                        # stacks as they were found
+                                        pop_constraint_scope()
+                                        clear_exprs()
                                         raise e
                                     fo.set_model(pop_constraint_scope())
                                     model.add_constraint(fo.model)
@@ -221,6 +231,10 @@ class _randobj:
                                         fo.c(self)
                                     except Exception as e:
                                         print("Exception while processing constraint: " + str(e))
+                                        # Leave the shared constraint-scope and expression
+                                        # stacks as they were found
+                                        pop_constraint_scope()
+                                        clear_exprs()
                                         raise e
                                     fo.set_model(pop_constraint_scope())
                                     fo.model.is_dynamic = True
